@@ -340,7 +340,8 @@ PROPS["C12"] = dict(
             corr_stage("BUFK1", 1500, 5000, feature=feat_buf("C12"), params={"salt": 12}),
             corr_stage("C13K1", 600, 4000, feature=lambda tok: (" ".join(tok[3:]) if (" ; 5 ; " in " ".join(tok) or " ; 6 ; " in " ".join(tok)) else None),
                        params={"closebias": 1}),
-            corr_stage("C12S", 5, 10, instrument=True, shards=4, tparams={"points": 1000})],
+            corr_stage("C12S", 5, 10, instrument=True, shards=4, tparams={"points": 1000}),
+            corr_stage("C12FROZEN", 9, 60, validate=False)],
 )
 PROPS["C13"] = dict(
     level_text="Theorems (Properties/C13.v): for every operation sequence the implementation-level Channel model (buffer + rollback counter as coded) "
